@@ -24,7 +24,7 @@ Record snap := mkSnap { s_alive0 : bool; s_mon0 : bool; s_alive1 : bool; s_mon1 
 (* inst: which of the two TokenLimiter instances (same key, rate, burst; own store wrapper) is called *)
 Inductive xtop :=
 | XTTick (ms : Z) (sn : snap)
-| XTAllow (inst : nat) (n : Z) (cx : nat) (skew : Z) (ok : bool) (sn : snap)   (* cx: 0 live, 1 cancelled, 2 deadline *)
+| XTAllow (inst : nat) (n : Z) (cx : nat) (skew : Z) (ok : bool) (sn : snap)   (* cx: 0 live, 1 cancelled, 2 deadline passed, 3 deadline expires in flight (script not run) *)
 | XTConc (inst : nat) (g : nat) (n : Z) (granted : Z) (sn : snap)
 | XTFault (eup pup hard : bool) (sn : snap)
 | XTReplace (eup pup : bool) (sn : snap).      (* fresh server instance answering EVAL / PING as given *)
@@ -140,7 +140,7 @@ Fixpoint pspec (lims : list (Z * Z * bool * nat)) (t : Z) (ws : windows) (ops : 
 
 (* ------------------------------------------------------------------ token: model agreement *)
 Definition ctx_of (n : nat) : ctxs :=
-  match n with O => CtxOk | S O => CtxCanceled | _ => CtxDeadline end.
+  match n with O => CtxOk | S O => CtxCanceled | S (S O) => CtxDeadline | _ => CtxInFlight false end.
 
 (* two limiter instances over one Redis *)
 Definition xstate : Type := world * limiter * limiter.
